@@ -993,3 +993,10 @@ mod test {
         // reader.clone();
     }
 }
+
+// Verification hook (off by default): contracts and proof harnesses kept outside the repository.
+#[cfg(feature = "multiqueue2_verif")]
+#[allow(dead_code, unused_imports, unused_variables, unused_mut)]
+mod verif_contracts {
+    include!(concat!(env!("MULTIQUEUE2_VERIF_DIR"), "/mpmc.rs"));
+}
